@@ -105,26 +105,32 @@ Proof. exact utf16_invalid_rejected. Qed.
    Shift-JIS is the identity), messages NUL-free Rust strings; tm_run is the model C07 is about. *)
 Theorem C06_history_round_trip : forall m e ops, Forall clean_op ops ->
   file_bound (text_image Unicode e (encode_text (tm_run ops))) < 2 ^ 32 ->
-  exists f, history_file m e ops = Ok f /\
-    parse_text e f = Ok (Some {| t_title := t_title (tm_run ops); t_entries := t_entries (tm_run ops); t_dirty := false |}).
+  exists f, history_file m Unicode e ops = Ok f /\
+    parse_text Unicode e f = Ok (Some {| t_title := t_title (tm_run ops); t_entries := t_entries (tm_run ops); t_dirty := false |}).
 Proof. exact history_round_trip. Qed.
+(* the legacy format: keys, title and messages NUL-free ASCII; the format stores no title, so the parsed title is empty *)
+Theorem C06_history_round_trip_legacy : forall m e ops, Forall ascii_op ops ->
+  file_bound (text_image ShiftJIS e (tm_run ops)) < 2 ^ 32 ->
+  exists f, history_file m ShiftJIS e ops = Ok f /\
+    parse_text ShiftJIS e f = Ok (Some {| t_title := []; t_entries := t_entries (tm_run ops); t_dirty := false |}).
+Proof. exact history_round_trip_legacy. Qed.
 Theorem C06_history_round_trip_lookup : forall m e ops, Forall clean_op ops ->
   file_bound (text_image Unicode e (encode_text (tm_run ops))) < 2 ^ 32 ->
-  exists f t', history_file m e ops = Ok f /\ parse_text e f = Ok (Some t') /\
+  exists f t', history_file m Unicode e ops = Ok f /\ parse_text Unicode e f = Ok (Some t') /\
     tm_keys t' = tm_keys (tm_run ops) /\ forall k, tm_get t' k = tm_get (tm_run ops) k.
 Proof. exact history_round_trip_lookup. Qed.
 (* the same for any in-memory archive value with distinct keys (not only reachable ones) *)
 Theorem C06_round_trip_decoded : forall m e t, NoDup (map fst (t_entries t)) -> clean_text t ->
   file_bound (text_image Unicode e (encode_text t)) < 2 ^ 32 ->
   exists f, TextFormat.serialize m Unicode e (encode_text t) = Ok f /\
-    parse_text e f = Ok (Some {| t_title := t_title t; t_entries := t_entries t; t_dirty := false |}).
+    parse_text Unicode e f = Ok (Some {| t_title := t_title t; t_entries := t_entries t; t_dirty := false |}).
 Proof. exact text_round_trip_decoded. Qed.
 (* a history with an astral character, an escape sequence, a delete and a re-add, a BOM-like message; big endian *)
 Example C06_history_example :
   let ops := [TTitle [84]; TSet [107;49] [0x1F600; 92; 110; 97]; TSet [107;50] []; TDel [107;49]; TSet [107;49] [0xFEFF]] in
   Forall clean_op ops /\ file_bound (text_image Unicode BE (encode_text (tm_run ops))) < 2 ^ 32 /\
-  exists f, history_file Checked BE ops = Ok f /\
-    parse_text BE f = Ok (Some {| t_title := [84]; t_entries := [([107;50], []); ([107;49], [0xFEFF])]; t_dirty := false |}).
+  exists f, history_file Checked Unicode BE ops = Ok f /\
+    parse_text Unicode BE f = Ok (Some {| t_title := [84]; t_entries := [([107;50], []); ([107;49], [0xFEFF])]; t_dirty := false |}).
 Proof. exact history_example. Qed.
 
 (* ---- non-vacuity ---- *)
